@@ -31,9 +31,15 @@ Proofs/PoolInv.vos Proofs/PoolInv.vok Proofs/PoolInv.required_vos: Proofs/PoolIn
 Proofs/PoolLemmas.vo Proofs/PoolLemmas.glob Proofs/PoolLemmas.v.beautified Proofs/PoolLemmas.required_vo: Proofs/PoolLemmas.v Model/Pool.vo
 Proofs/PoolLemmas.vio: Proofs/PoolLemmas.v Model/Pool.vio
 Proofs/PoolLemmas.vos Proofs/PoolLemmas.vok Proofs/PoolLemmas.required_vos: Proofs/PoolLemmas.v Model/Pool.vos
+Proofs/PoolMeasure.vo Proofs/PoolMeasure.glob Proofs/PoolMeasure.v.beautified Proofs/PoolMeasure.required_vo: Proofs/PoolMeasure.v Model/Pool.vo Spec/PoolS.vo Proofs/PoolLemmas.vo Proofs/PoolInv.vo Proofs/PoolP.vo
+Proofs/PoolMeasure.vio: Proofs/PoolMeasure.v Model/Pool.vio Spec/PoolS.vio Proofs/PoolLemmas.vio Proofs/PoolInv.vio Proofs/PoolP.vio
+Proofs/PoolMeasure.vos Proofs/PoolMeasure.vok Proofs/PoolMeasure.required_vos: Proofs/PoolMeasure.v Model/Pool.vos Spec/PoolS.vos Proofs/PoolLemmas.vos Proofs/PoolInv.vos Proofs/PoolP.vos
 Proofs/PoolP.vo Proofs/PoolP.glob Proofs/PoolP.v.beautified Proofs/PoolP.required_vo: Proofs/PoolP.v Model/Pool.vo Spec/PoolS.vo Proofs/PoolLemmas.vo Proofs/PoolInv.vo Proofs/PoolStepA.vo Proofs/PoolStepB.vo Proofs/PoolStepC.vo Proofs/PoolStepD.vo Proofs/PoolStepE.vo
 Proofs/PoolP.vio: Proofs/PoolP.v Model/Pool.vio Spec/PoolS.vio Proofs/PoolLemmas.vio Proofs/PoolInv.vio Proofs/PoolStepA.vio Proofs/PoolStepB.vio Proofs/PoolStepC.vio Proofs/PoolStepD.vio Proofs/PoolStepE.vio
 Proofs/PoolP.vos Proofs/PoolP.vok Proofs/PoolP.required_vos: Proofs/PoolP.v Model/Pool.vos Spec/PoolS.vos Proofs/PoolLemmas.vos Proofs/PoolInv.vos Proofs/PoolStepA.vos Proofs/PoolStepB.vos Proofs/PoolStepC.vos Proofs/PoolStepD.vos Proofs/PoolStepE.vos
+Proofs/PoolProgress.vo Proofs/PoolProgress.glob Proofs/PoolProgress.v.beautified Proofs/PoolProgress.required_vo: Proofs/PoolProgress.v Model/Pool.vo Spec/PoolS.vo Proofs/PoolLemmas.vo Proofs/PoolInv.vo Proofs/PoolP.vo
+Proofs/PoolProgress.vio: Proofs/PoolProgress.v Model/Pool.vio Spec/PoolS.vio Proofs/PoolLemmas.vio Proofs/PoolInv.vio Proofs/PoolP.vio
+Proofs/PoolProgress.vos Proofs/PoolProgress.vok Proofs/PoolProgress.required_vos: Proofs/PoolProgress.v Model/Pool.vos Spec/PoolS.vos Proofs/PoolLemmas.vos Proofs/PoolInv.vos Proofs/PoolP.vos
 Proofs/PoolStepA.vo Proofs/PoolStepA.glob Proofs/PoolStepA.v.beautified Proofs/PoolStepA.required_vo: Proofs/PoolStepA.v Model/Pool.vo Proofs/PoolLemmas.vo Proofs/PoolInv.vo
 Proofs/PoolStepA.vio: Proofs/PoolStepA.v Model/Pool.vio Proofs/PoolLemmas.vio Proofs/PoolInv.vio
 Proofs/PoolStepA.vos Proofs/PoolStepA.vok Proofs/PoolStepA.required_vos: Proofs/PoolStepA.v Model/Pool.vos Proofs/PoolLemmas.vos Proofs/PoolInv.vos
@@ -49,15 +55,18 @@ Proofs/PoolStepD.vos Proofs/PoolStepD.vok Proofs/PoolStepD.required_vos: Proofs/
 Proofs/PoolStepE.vo Proofs/PoolStepE.glob Proofs/PoolStepE.v.beautified Proofs/PoolStepE.required_vo: Proofs/PoolStepE.v Model/Pool.vo Proofs/PoolLemmas.vo Proofs/PoolInv.vo
 Proofs/PoolStepE.vio: Proofs/PoolStepE.v Model/Pool.vio Proofs/PoolLemmas.vio Proofs/PoolInv.vio
 Proofs/PoolStepE.vos Proofs/PoolStepE.vok Proofs/PoolStepE.required_vos: Proofs/PoolStepE.v Model/Pool.vos Proofs/PoolLemmas.vos Proofs/PoolInv.vos
+Proofs/PoolTraceP.vo Proofs/PoolTraceP.glob Proofs/PoolTraceP.v.beautified Proofs/PoolTraceP.required_vo: Proofs/PoolTraceP.v Model/Pool.vo Model/PoolTrace.vo Spec/PoolS.vo Proofs/PoolP.vo
+Proofs/PoolTraceP.vio: Proofs/PoolTraceP.v Model/Pool.vio Model/PoolTrace.vio Spec/PoolS.vio Proofs/PoolP.vio
+Proofs/PoolTraceP.vos Proofs/PoolTraceP.vok Proofs/PoolTraceP.required_vos: Proofs/PoolTraceP.v Model/Pool.vos Model/PoolTrace.vos Spec/PoolS.vos Proofs/PoolP.vos
 Proofs/PoolWitness.vo Proofs/PoolWitness.glob Proofs/PoolWitness.v.beautified Proofs/PoolWitness.required_vo: Proofs/PoolWitness.v Model/Pool.vo Spec/PoolS.vo
 Proofs/PoolWitness.vio: Proofs/PoolWitness.v Model/Pool.vio Spec/PoolS.vio
 Proofs/PoolWitness.vos Proofs/PoolWitness.vok Proofs/PoolWitness.required_vos: Proofs/PoolWitness.v Model/Pool.vos Spec/PoolS.vos
 Props/C14.vo Props/C14.glob Props/C14.v.beautified Props/C14.required_vo: Props/C14.v Base/ListX.vo Model/NameWire.vo Spec/NameWireS.vo Spec/NameRepr.vo Proofs/NameWireP.vo Proofs/NameWireSP.vo
 Props/C14.vio: Props/C14.v Base/ListX.vio Model/NameWire.vio Spec/NameWireS.vio Spec/NameRepr.vio Proofs/NameWireP.vio Proofs/NameWireSP.vio
 Props/C14.vos Props/C14.vok Props/C14.required_vos: Props/C14.v Base/ListX.vos Model/NameWire.vos Spec/NameWireS.vos Spec/NameRepr.vos Proofs/NameWireP.vos Proofs/NameWireSP.vos
-Props/C29.vo Props/C29.glob Props/C29.v.beautified Props/C29.required_vo: Props/C29.v Model/Pool.vo Spec/PoolS.vo Proofs/PoolLemmas.vo Proofs/PoolInv.vo Proofs/PoolP.vo Proofs/PoolWitness.vo
-Props/C29.vio: Props/C29.v Model/Pool.vio Spec/PoolS.vio Proofs/PoolLemmas.vio Proofs/PoolInv.vio Proofs/PoolP.vio Proofs/PoolWitness.vio
-Props/C29.vos Props/C29.vok Props/C29.required_vos: Props/C29.v Model/Pool.vos Spec/PoolS.vos Proofs/PoolLemmas.vos Proofs/PoolInv.vos Proofs/PoolP.vos Proofs/PoolWitness.vos
+Props/C29.vo Props/C29.glob Props/C29.v.beautified Props/C29.required_vo: Props/C29.v Model/Pool.vo Model/PoolTrace.vo Spec/PoolS.vo Proofs/PoolLemmas.vo Proofs/PoolInv.vo Proofs/PoolP.vo Proofs/PoolProgress.vo Proofs/PoolMeasure.vo Proofs/PoolTraceP.vo Proofs/PoolWitness.vo
+Props/C29.vio: Props/C29.v Model/Pool.vio Model/PoolTrace.vio Spec/PoolS.vio Proofs/PoolLemmas.vio Proofs/PoolInv.vio Proofs/PoolP.vio Proofs/PoolProgress.vio Proofs/PoolMeasure.vio Proofs/PoolTraceP.vio Proofs/PoolWitness.vio
+Props/C29.vos Props/C29.vok Props/C29.required_vos: Props/C29.v Model/Pool.vos Model/PoolTrace.vos Spec/PoolS.vos Proofs/PoolLemmas.vos Proofs/PoolInv.vos Proofs/PoolP.vos Proofs/PoolProgress.vos Proofs/PoolMeasure.vos Proofs/PoolTraceP.vos Proofs/PoolWitness.vos
 Spec/NameRepr.vo Spec/NameRepr.glob Spec/NameRepr.v.beautified Spec/NameRepr.required_vo: Spec/NameRepr.v Model/NameWire.vo Spec/NameWireS.vo
 Spec/NameRepr.vio: Spec/NameRepr.v Model/NameWire.vio Spec/NameWireS.vio
 Spec/NameRepr.vos Spec/NameRepr.vok Spec/NameRepr.required_vos: Spec/NameRepr.v Model/NameWire.vos Spec/NameWireS.vos
